@@ -133,7 +133,13 @@ def structural_signature_key(repo):
         return [{'id': 'signature-key', 'kind': 'post', 'ok': None, 'label': 'cannot parse helpers.py: %s' % e}]
     cs = find_function(t3, 'cache_signatures')
     s3 = ' '.join(ast.unparse(cs).split()) if cs else ''
-    ok3 = cs is not None and 'before_bracket = re.match(' in s3 and ', whole, re.DOTALL)' in s3 \
+    n_assign = 0
+    if cs is not None:
+        for n in ast.walk(cs):
+            tgts = n.targets if isinstance(n, ast.Assign) else [n.target] if isinstance(n, (ast.AugAssign, ast.AnnAssign, ast.NamedExpr)) else []
+            for t in tgts:
+                n_assign += sum(1 for e in ast.walk(t) if isinstance(e, ast.Name) and e.id == 'before_bracket')
+    ok3 = cs is not None and n_assign == 1 and 'before_bracket = re.match(' in s3 and ', whole, re.DOTALL)' in s3 \
         and 'if module_path is None: yield None' in s3 \
         and 'yield (module_path, before_bracket, bracket_leaf.start_pos)' in s3
     return [{'id': 'signature-key', 'kind': 'post', 'ok': ok3 if cs else None,
